@@ -49,6 +49,7 @@ type World struct {
 	node    map[string]uint64
 	labelOf map[uint64]string
 	Hist    []string // op lines since (and including) the last schema line
+	Writes  []*Op    // the accepted write batches since the last schema line (for shrinking replays)
 }
 
 func NewWorld(dir string) *World { return &World{dir: dir} }
@@ -500,6 +501,7 @@ func (w *World) Exec(op *Op) (ans string, fail *Failure) {
 			panic(err)
 		}
 		w.Hist = nil
+		w.Writes = nil
 		ans = "ok"
 	case "lower":
 		ans = "ok"
@@ -570,5 +572,8 @@ func (w *World) Exec(op *Op) (ans string, fail *Failure) {
 		panic("bad op " + op.Kind)
 	}
 	w.Hist = append(w.Hist, op.Line())
+	if ans == "ok" && (op.Kind == "insert" || op.Kind == "update" || op.Kind == "delete") {
+		w.Writes = append(w.Writes, copyOp(op))
+	}
 	return
 }
